@@ -6,6 +6,8 @@ patch="$1"
 cd /repo || exit 2
 if ! git diff --quiet; then echo "/repo has uncommitted changes"; exit 2; fi
 git apply "$patch" || { echo "patch does not apply"; exit 2; }
+trap 'git -C /repo checkout -- . >/dev/null 2>&1' EXIT
+trap '' PIPE
 ev=$(mktemp -d)
 for p in $(python3 -c "import json;print(' '.join(c['property_id'] for c in json.load(open('/verif/MANIFEST.json'))['checks']))"); do
   out=$(cd /verif && ./bin/gritscheck -prop $p -tier quick -evidence-dir "$ev" 2>&1)
